@@ -115,6 +115,14 @@ func randPi(r *Rng, valid bool) Sx {
 
 func genC16(r *Rng, tier string) []Case {
 	cs := []Case{}
+	// sequences of identifier serializations: refused ones (after partial output) between accepted ones
+	for i := 0; i < 120; i++ {
+		seq := []Sx{}
+		for j := 2 + r.Intn(5); j > 0; j-- {
+			seq = append(seq, randPi(r, r.Chance(1, 2)))
+		}
+		cs = append(cs, Case{"sh_ser_pi_seq", seq})
+	}
 	// serializer: generated values (valid and invalid)
 	n := 2500
 	if tier == "thorough" {
